@@ -9,7 +9,7 @@ A7 = "A7 Tokenizer::next is a deterministic function of (input, cursor, registry
 A8 = "A8 a &str is determined by its characters (a@ == b@ ==> a == b)"
 NC_COMPLETE = "completeness: that every sentence of the grammar is accepted (the parser theorem is a soundness theorem)"
 PROPS = {
- 'C01': dict(units=['tp', 'pr', 'lb', 'dd'], assumptions=[A1, A2, A3, A6, A7],
+ 'C01': dict(units=['tp', 'pr', 'lb', 'dd', 'ev', 'ds'], assumptions=[A1, A2, A3, A6, A7],
     level_text="Unbounded proof (Verus) on the extracted real source: every slice/index/arithmetic/unwrap precondition in tokenizer, parser and printer is discharged and every loop and recursion has a decreasing measure, for all UTF-8 inputs. Stack depth is outside the verifier's model (known finding).",
     level_note="Assumes A1 A2 A3 A6 A7 (DESIGN.md 4); describe() safety/termination is proved in unit dd (descriptor applications opaque); stack exhaustion is a known finding outside the model.",
     not_covered=["stack exhaustion (the verifier's model has an unbounded stack; known finding)", "the default_*_descriptor bodies called by describe() (C18: bounded stand-in)", "Decimal::from_str totality (A3)"]),
@@ -24,7 +24,7 @@ PROPS = {
     level_text="Unbounded proof: each of the 23 built-in handlers (lifted byte-for-byte from the init() functions) agrees with a spec function written from the README/property for every operand value, including every wrongly-typed operand; the evaluator agrees with the big-step semantics sem for every AST and context.",
     level_note="Decimal arithmetic itself is the dependency's (A3: uninterpreted dec_add...); user handlers are opaque (A4).",
     not_covered=["user-registered handlers", "float()"]),
- 'C04': dict(units=['hv'], assumptions=[A1, A2, A3, A6],
+ 'C04': dict(units=['hv', 'ev'], assumptions=[A1, A2, A3, A6],
     level_text="Unbounded proof: inside every built-in handler each panicking operation has its precondition discharged (checked Decimal ops, shift count in 0..=63, non-empty aggregate) and the postcondition forces Ok(exact) or Err; integer() is Ok(n) exactly for integral in-range numbers.",
     level_note="Panicking Decimal operators have no dischargeable precondition in the model, so any reintroduction fails; A3 for the checked forms.",
     not_covered=["user-registered handlers"]),
